@@ -73,7 +73,8 @@ func (c *Conn) readMessage() error {
 	if err != nil {
 		return err
 	}
-	if contentLength > c.config.ReadMaxPayloadSize {
+	// A 64-bit length with the most significant bit set becomes a negative int.
+	if contentLength < 0 || contentLength > c.config.ReadMaxPayloadSize {
 		return internal.CloseMessageTooLarge
 	}
 
